@@ -86,6 +86,17 @@ def lib_env(reg, bounds, counter, falsy=False, warmup=None):
     if not warmup:
         return lib.make_env(min_int=lo, max_int=hi, functions=fns, keep_builtins=False)
     reg0, q0, how = warmup
+    if how == "rebound":
+        env = lib.make_env(functions=lib_functions(reg0, counter), keep_builtins=False)
+        env.min_int_index, env.max_int_index = -7, 7          # instance-level bounds, in force for the warm-up only
+        for q_ in ("$[1]", "$[0:2:1]", "$[?@[0] == 1]", q0):
+            lib.compile_(q_, env)
+        if lo is None:
+            del env.min_int_index, env.max_int_index           # back to the class defaults
+        else:
+            env.min_int_index, env.max_int_index = lo, hi
+        env.function_extensions = dict(fns)
+        return env
     env = lib.make_env(min_int=lo, max_int=hi, functions=lib_functions(reg0, counter), keep_builtins=False)
     lib.compile_(q0, env)
     if how == "rebind":
@@ -276,6 +287,11 @@ def inject(ast, reg, bounds, r, g):
         elif pt == NODES:
             cands = [["lit", 1], ["lit", "a"], ["cmp", "==", ["q", "@", []], ["lit", 1]], some_call(VALUE),
                      some_call(LOGICAL), ["lit", None]]
+        if pt in (VALUE, NODES):
+            # an even number of negations around a query or a NodesType call is LogicalType, not the thing negated
+            inner = r.choice([["q", "@", [["child", [["name", "a"]]]]], ["q", "@", [["child", [["wild"]]]]], some_call(NODES) or ["q", "@", []]])
+            cands += [["not", ["paren", ["not", ["paren", ["test", inner]]]]], ["not", ["not", ["test", inner]]],
+                      ["paren", ["test", inner]]]
         elif pt == LOGICAL:
             cands = [["lit", True], ["lit", 1], some_call(VALUE), ["lit", "x"]]
         cands = [c for c in cands if c is not None]
@@ -398,7 +414,7 @@ def run_shard(spec, shard):
             case["falsy"] = True
         if r.random() < 0.3:
             reg0 = make_registry(r)
-            how0 = r.choice(["rebind", "rebind", "in-place", "retype-objects", "retype-objects"])
+            how0 = r.choice(["rebind", "rebind", "in-place", "retype-objects", "retype-objects", "rebound", "rebound"])
             if how0 == "retype-objects":
                 # the same names with other declarations
                 reg0 = {name: ({"params": [r.choice(TYPES) for _ in range(r.choice([len(sg["params"])] * 3 + [0, 1, 2]))], "ret": r.choice(TYPES)}
